@@ -518,8 +518,13 @@ impl ScionPath {
                     })
                     .collect();
 
+                // Latency and bandwidth are one per link (total_interfaces - 1), leaving out the
+                // last interface which is the destination.
+                let link_count = if_meta.len().saturating_sub(1);
+
                 rpc_path.latency = if_meta
                     .iter()
+                    .take(link_count)
                     .map(|latency| {
                         match latency.latency {
                             Some(latency) => {
@@ -543,6 +548,7 @@ impl ScionPath {
 
                 rpc_path.bandwidth = if_meta
                     .iter()
+                    .take(link_count)
                     .map(|meta| meta.bandwidth.unwrap_or(0))
                     .collect();
 
@@ -556,15 +562,45 @@ impl ScionPath {
                     })
                     .collect();
 
-                rpc_path.link_type = if_meta
+                // Link types are one per inter-AS link, i.e. at the even indices of the interfaces.
+                // They are only supplied if known for at least one link.
+                if if_meta
                     .iter()
-                    .map(|meta| {
-                        match &meta.link {
-                            Some(LinkMeta::Egress(link_type)) => link_type.to_i32(),
-                            _ => LinkType::Unset.to_i32(),
-                        }
-                    })
-                    .collect();
+                    .step_by(2)
+                    .any(|meta| matches!(meta.link, Some(LinkMeta::Egress(_))))
+                {
+                    rpc_path.link_type = if_meta
+                        .iter()
+                        .step_by(2)
+                        .map(|meta| {
+                            match &meta.link {
+                                Some(LinkMeta::Egress(link_type)) => link_type.to_i32(),
+                                _ => LinkType::Unset.to_i32(),
+                            }
+                        })
+                        .collect();
+                }
+
+                // Internal hops are one per intra-AS link, i.e. at the odd indices of the interfaces
+                // leaving out the last interface which is the destination. They are only supplied
+                // if known for at least one link.
+                let ingress_links = || {
+                    if_meta
+                        .iter()
+                        .skip(1)
+                        .step_by(2)
+                        .take((if_meta.len() / 2).saturating_sub(1))
+                };
+                if ingress_links().any(|meta| matches!(meta.link, Some(LinkMeta::Ingress { .. }))) {
+                    rpc_path.internal_hops = ingress_links()
+                        .map(|meta| {
+                            match &meta.link {
+                                Some(LinkMeta::Ingress { internal_hop_count }) => *internal_hop_count,
+                                _ => 0,
+                            }
+                        })
+                        .collect();
+                }
 
                 // collect notes if available, must be one per AS (total_interfaces / 2 + 1)
                 let expected_count_ases = if_meta.len() / 2 + 1;
